@@ -1139,6 +1139,7 @@ func runC20(c *Ctx) {
 	}
 	ruleVendoredEqualsUpstream(c, "C20.4", vendoredTerminal)
 	ruleRemainderInvariant(c, "C20.5")
+	ruleBytesDecodedOnlyByKeyReader(c, "C20.7")
 	// C20.3
 	if bk := c.NeedFunc("C20.3", "console.bytesToKey"); bk != nil {
 		g := bk.Graph()
@@ -1160,6 +1161,87 @@ func runC20(c *Ctx) {
 			}
 			c.Check(ok, "C20.3", key, decs[0].Pos(), "DecodeRune is dominated by a FullRune test", "bytesToKey decodes a rune without first testing utf8.FullRune: the leading bytes of a multi-byte character that straddles a read boundary are consumed as an invalid rune and the character disappears from the statement")
 		}
+	}
+}
+
+// ruleBytesDecodedOnlyByKeyReader: in the console, bytes of the input become characters in one place only.
+func ruleBytesDecodedOnlyByKeyReader(c *Ctx, rule string) {
+	c.Rule(rule, "input bytes become characters only in bytesToKey (the one place that waits, with utf8.FullRune, until a character is complete): no other function of the console decodes a byte slice — bytes.Runes, utf8.DecodeRune / DecodeLastRune, []rune(string(b)), range over string(b) — because the 256-byte read buffer can end in the middle of a multi-byte character, whose leading bytes would then be decoded as U+FFFD and the character lost from the statement")
+	w := c.W
+	pkg := w.Pkgs["console"]
+	if pkg == nil {
+		c.Undecided(rule, "subjects", "package console not loaded")
+		return
+	}
+	n, bad := 0, 0
+	isBytes := func(f *Func, e ast.Expr) bool {
+		t := f.TypeOf(e)
+		if t == nil {
+			return false
+		}
+		sl, ok := t.Underlying().(*types.Slice)
+		if !ok {
+			return false
+		}
+		b, ok := sl.Elem().Underlying().(*types.Basic)
+		return ok && b.Kind() == types.Uint8
+	}
+	for _, name := range w.SortedFuncNames() {
+		f := w.Funcs[name]
+		if f.Pkg != pkg || f.Decl.Body == nil || strings.HasSuffix(w.Fset.Position(f.Decl.Pos()).Filename, "_test.go") {
+			continue
+		}
+		n++
+		if f.Name == "console.bytesToKey" {
+			continue
+		}
+		idx := 0
+		ast.Inspect(f.Decl.Body, func(x ast.Node) bool {
+			switch y := x.(type) {
+			case *ast.CallExpr:
+				what := ""
+				switch {
+				case f.CallIs(y, "bytes.Runes", "utf8.DecodeRune", "utf8.DecodeLastRune"):
+					what = f.Src(y.Fun)
+				case len(y.Args) == 1:
+					// []rune(string(b))
+					if tv, ok := f.Pkg.TypesInfo.Types[y.Fun]; ok && tv.IsType() {
+						if sl, ok := tv.Type.Underlying().(*types.Slice); ok {
+							if b, ok := sl.Elem().Underlying().(*types.Basic); ok && b.Kind() == types.Int32 {
+								if inner, ok := ast.Unparen(y.Args[0]).(*ast.CallExpr); ok && len(inner.Args) == 1 && isBytes(f, inner.Args[0]) {
+									if itv, ok := f.Pkg.TypesInfo.Types[inner.Fun]; ok && itv.IsType() {
+										what = "[]rune(string(…))"
+									}
+								}
+							}
+						}
+					}
+				}
+				if what != "" {
+					idx++
+					bad++
+					c.Fail(rule, f.Name+"|decodes-bytes#"+itoa(idx), y.Pos(), "%s turns input bytes into characters with %s instead of leaving it to bytesToKey: a multi-byte character cut by the end of a read is decoded as U+FFFD and lost", f.Name, what)
+				}
+			case *ast.RangeStmt:
+				if inner, ok := ast.Unparen(y.X).(*ast.CallExpr); ok && len(inner.Args) == 1 && isBytes(f, inner.Args[0]) {
+					if itv, ok := f.Pkg.TypesInfo.Types[inner.Fun]; ok && itv.IsType() {
+						if b, ok := itv.Type.Underlying().(*types.Basic); ok && b.Kind() == types.String {
+							idx++
+							bad++
+							c.Fail(rule, f.Name+"|decodes-bytes#"+itoa(idx), y.Pos(), "%s ranges over string(bytes) of the input instead of leaving the decoding to bytesToKey: a multi-byte character cut by the end of a read is decoded as U+FFFD and lost", f.Name)
+						}
+					}
+				}
+			}
+			return true
+		})
+	}
+	if n == 0 {
+		c.Undecided(rule, "subjects", "no function of the console found")
+		return
+	}
+	if bad == 0 {
+		c.OK(rule, "console|bytes-decoded-by-bytesToKey-only", token.NoPos, n, "%d functions of the console examined, none decodes a byte slice itself", n)
 	}
 }
 
